@@ -44,6 +44,11 @@ def check(chk, repo):
     # weights read back from a distance file must keep their order type: no rounding on the way to disk
     from .c10 import check_savetxt_format, distance_file_writer
     check_savetxt_format(rep, distance_file_writer(repo), "MONO-file")
+    # the prototype set must not depend on where Prim's walk starts: that is the both-endpoints rule of C02
+    from ..common import competitions_of
+    from ..rules_ift import check_prim
+    _, comps = competitions_of(repo, "SupervisedOPF", "fit", 2)
+    check_prim(rep, "PROTO:", comps[0])
     # every forest is grown through the priority queue: its structural rules are a premise here too
     from ..rules_heap import check_heap
     check_heap(rep, repo, "HEAP-")
